@@ -16,6 +16,7 @@ import io
 import json
 import keyword
 import random
+import re
 import warnings
 from pathlib import Path
 
@@ -405,11 +406,16 @@ def run_chunk(cases):
                         rec["inferred"]["repr"] = short(inferred.val)
             if c[0] in ("un", "bin"):
                 rec["sides"] = observe_sides(c, ns)
+            if c[0] == "aug":
+                a, b = eval(c[2], ns), eval(c[3], ns)
+                rec["sides"] = observe_sides(("bin", c[1], c[2], c[3]), ns)
+                rec["sides"]["i"] = observe_side(a, "__i" + BINOPS[c[1]][0][2:], [b])
             if c[0] == "sub":
                 rec["sub"] = observe_sub(c, ns, inferred)
             if c[0] == "attr":
                 obj = eval(c[1], ns)
                 rec["only_known_attrs"] = _only_known(v, obj)
+                rec["attr_obs"] = observe_attr(v, obj, c[2], c[1])
         out.append(rec)
     return out
 
@@ -421,6 +427,63 @@ def _only_known(visitor, obj):
         return bool(_has_only_known_attributes(visitor.checker.ts_finder, obj))
     except Exception:
         return None
+
+
+def observe_attr(visitor, obj, name, operand_src=""):
+    """what the attribute model needs to know about the real object and the stubs"""
+    import enum
+    import inspect
+    import types as _t
+
+    from pyanalyze import attributes
+    from pyanalyze.value import UNINITIALIZED_VALUE, CallableValue
+
+    if isinstance(obj, _t.ModuleType):
+        kind = "KModule"
+    elif isinstance(obj, type) and issubclass(obj, enum.Enum):
+        kind = "KEnumClass"
+    elif isinstance(obj, type):
+        kind = "KClass"
+    else:
+        kind = "KInstance"
+    with warnings.catch_warnings():
+        warnings.simplefilter("ignore")
+        try:
+            getattr(obj, name)
+            real = "RHas"
+        except AttributeError:
+            real = "RRaisesAttr"
+        except Exception:
+            real = "RRaisesOther"
+    bases = []
+    if kind in ("KClass", "KEnumClass"):
+        for base in type.mro(obj):
+            try:
+                st = visitor.checker.ts_finder.get_attribute(base, name, on_class=True)
+            except Exception:
+                st = UNINITIALIZED_VALUE
+            stub = "NoStub" if st is UNINITIALIZED_VALUE else ("StubCallable" if isinstance(st, CallableValue) else "StubValue")
+            try:
+                annot = name in base.__dict__.get("__annotations__", {})
+            except Exception:
+                annot = False
+            bases.append([stub, bool(annot), name in base.__dict__])
+    return {
+        "kind": kind, "real": real, "bases": bases,
+        "enum_dynamic": isinstance(inspect.getattr_static(obj, name, None), _t.DynamicClassAttribute),
+        "module_annot": kind == "KModule" and name in getattr(obj, "__annotations__", {}),
+        "only_known": bool(_only_known(visitor, obj)),
+        "has_getattr": bool(attributes._static_hasattr(obj, "__getattr__")),
+        # _should_ignore_val works on the attribute *path*: only a dotted name has one (os.count, E.a.count; not (1).count)
+        "ignored_name": name in IGNORED_END_OF_REFERENCE and re.fullmatch(r"[A-Za-z_][A-Za-z_0-9.]*", operand_src) is not None and operand_src not in ("True", "False", "None"),
+    }
+
+
+def attr_term(o):
+    bases = lib.clist([f"(mkBase {b[0]} {lib.cbool(b[1])} {lib.cbool(b[2])})" for b in o["bases"]])
+    t = (f"(mkObs {o['kind']} {o['real']} {bases} {lib.cbool(o['enum_dynamic'])} {lib.cbool(o['module_annot'])} "
+         f"{lib.cbool(o['only_known'])} {lib.cbool(o['has_getattr'])} {lib.cbool(o['ignored_name'])})")
+    return f"(pa_attr {t}, attr_guard {t})"
 
 
 def _lookup(t, name):
@@ -644,7 +707,7 @@ def side_term(s, val_id, stub_accepts=False):
 
 def seq_repeat_by_class(c, ns_eval):
     """guard of finding C19-seq-repeat-by-class-object -> which sides' stubs wrongly accept ("l", "r")"""
-    if c[0] != "bin" or c[1] != "*":
+    if c[0] not in ("bin", "aug") or c[1] != "*":
         return ()
     a, b = ns_eval(c[2]), ns_eval(c[3])
     isseq = lambda x: isinstance(x, (str, bytes, tuple))
@@ -658,6 +721,11 @@ def seq_repeat_by_class(c, ns_eval):
 
 def op_term(c, rec, accept=()):
     sd = rec["sides"]
+    if c[0] == "aug":
+        i, l, r = side_term(sd["i"], 3), side_term(sd["l"], 1, "l" in accept), side_term(sd["r"], 2, "r" in accept)
+        si, rp = lib.cbool(sd["same_impl"]), lib.cbool(sd["r_priority"])
+        return (f"(@pa_aug nat {i} {l} {r}, @py_aug nat {si} {rp} {i} {l} {r}, "
+                f"(aug_guard {si} {rp} {i} {l} {r}, subclass_priority {rp} {l} {r}))")
     if c[0] == "un":
         s = side_term(sd["l"], 1)
         return f"(@pa_unop nat {s}, @py_unop nat {s})"
@@ -682,7 +750,7 @@ def seq_term(kind, ms, key):
 
 
 HEADER = ("From Coq Require Import ZArith List Bool. Import ListNotations.\n"
-          "Require Import PV.Gen.Ops PV.Ops.Dispatch PV.Ops.SeqIndex.\nLocal Open Scope Z_scope.")
+          "Require Import PV.Ops.AttrBase PV.Gen.Ops PV.Ops.Dispatch PV.Ops.SeqIndex PV.Ops.Attr.\nLocal Open Scope Z_scope.")
 
 
 def run_model(cases, recs):
@@ -693,7 +761,7 @@ def run_model(cases, recs):
     exec(PRELUDE, ns)
     for c, rec in zip(cases, recs):
         t = None
-        if c[0] in ("un", "bin"):
+        if c[0] in ("un", "bin", "aug"):
             t = op_term(c, rec, seq_repeat_by_class(c, lambda s: eval(s, ns)))
         elif c[0] == "sub" and rec.get("sub"):
             n, key = rec["sub"]["n"], rec["sub"]["key"]
@@ -702,6 +770,8 @@ def run_model(cases, recs):
             key = parse_key(c[3])
             if key is not None:
                 t = seq_term(c[1], [(m, i) for i, (m, _) in enumerate(c[2])], key)
+        elif c[0] == "attr" and rec.get("attr_obs"):
+            t = attr_term(rec["attr_obs"])
         keyof.append(t)
         if t is not None:
             terms.setdefault(t, None)
@@ -829,6 +899,8 @@ def judge(cases, recs, models, rep, findings_text):
             distinct.add(json.dumps(c, default=str))
         if fail_why:
             fid = known_finding(c, rec, ns_eval)
+            if fid and c[0] == "attr" and m is not None and (m[1] is True or bool(m[0]) != diag):
+                fid = None  # the attribute model puts the case inside its guard, or does not predict the checker: a new violation
             if fid and fid in findings_text:
                 rep.known(fid, findings_text[fid])
             else:
@@ -837,24 +909,29 @@ def judge(cases, recs, models, rep, findings_text):
         if m is None:
             continue
         why = None
-        if c[0] in ("un", "bin"):
+        if c[0] in ("un", "bin", "aug"):
             pa, py = m[0], m[1]
             bump("model_branch", f"pa:{pa if isinstance(pa, str) else pa[0]} py:{py if isinstance(py, str) else py[0]}")
             # spec vs CPython
             exc = rec["oracle"].get("exc")
             spec_ok = (py == "PTypeError") == (exc == "TypeError") and (py == "POther") == (exc is not None and exc != "TypeError")
             if isinstance(py, tuple) and py[0] == "PVal" and exc is None:
-                side = rec["sides"]["l" if py[1] == 1 else "r"]
+                side = rec["sides"][{1: "l", 2: "r", 3: "i"}[py[1]]]
                 spec_ok = spec_ok and side.get("val") == rec["oracle"].get("value")
-            if not spec_ok:
+            if not spec_ok and not (c[0] == "aug" and known_finding(c, rec, ns_eval) == "C19-inplace-repeat-intenum-member"):
+                # (the in-place repeat of an IntEnum member is a CPython asymmetry outside the documented protocol: known finding)
                 spec_bad.append((c, rec, m))
             # model vs implementation
             if (pa == "VDiag") != diag:
                 why = f"model says {'diagnostic' if pa == 'VDiag' else 'no diagnostic'}, checker says {'diagnostic' if diag else 'none'}"
             elif isinstance(pa, tuple) and pa[0] == "VLit":
-                side = rec["sides"]["l" if pa[1] == 1 else "r"]
+                side = rec["sides"][{1: "l", 2: "r", 3: "i"}[pa[1]]]
                 if rec["inferred"]["k"] == "known" and rec["inferred"].get("repr") != side.get("val"):
                     why = f"model literal {side.get('val')} vs inferred {rec['inferred'].get('repr')}"
+        elif c[0] == "attr":
+            bump("model_branch", f"attr:{rec['attr_obs']['kind']}:{'diag' if m[0] else 'nodiag'}:{'guard' if m[1] else 'outside-guard'}")
+            if bool(m[0]) != diag:
+                why = f"model says {'diagnostic' if m[0] else 'no diagnostic'}, checker says {'diagnostic' if diag else 'none'} ({rec['attr_obs']})"
         elif c[0] == "sub":
             key = rec["sub"]["key"]
             bump("model_branch", f"sub:{m if isinstance(m, str) else m[0]}")
@@ -990,7 +1067,9 @@ def run(tier: str, replay: str | None = None):
     found_input = bool(failing)
     if corr and not found_input:
         c, rec, m, why = corr[0]
-        name = "Dispatch.pa_binop/pa_unop vs _visit_binop_no_mvv/_check_dunder_call" if c[0] in ("un", "bin") else "SeqIndex.seq_getitem_int/slice vs _sequence_common_getitem_impl"
+        name = ("Dispatch.pa_binop/pa_unop vs _visit_binop_no_mvv/_check_dunder_call" if c[0] in ("un", "bin") else
+                "Attr.pa_attr vs _get_attribute_from_mro/_get_attribute_fallback" if c[0] == "attr" else
+                "SeqIndex.seq_getitem_int/slice vs _sequence_common_getitem_impl")
         rep.violation({"kind": "broken-correspondence", "correspondence": name, "input": payload(c, rec), "observed": {"codes": rec["codes"], "inferred": rec["inferred"]},
                        "model": str(m), "why": why, "mismatches": len(corr)}, no_failing_input=True)
     for c, rec, m in spec_bad[:3]:
